@@ -355,3 +355,112 @@ type memFile struct {
 }
 
 func newMemFS() *memFS { return &memFS{files: map[string]*memFile{}} }
+
+// ---- errors.Is / errors.As (the originals use reflectlite) --------------------------------
+
+func (fr *frame) errUnwrap(err iface) []iface {
+	if err.t == nil {
+		return nil
+	}
+	f := fr.i.prog.LookupMethod(err.t, nil, "Unwrap")
+	if f == nil {
+		return nil
+	}
+	res := f.Signature.Results()
+	if f.Signature.Params().Len() != 0 || res.Len() != 1 {
+		return nil
+	}
+	out := fr.i.call(fr, token.NoPos, f, []value{err.v})
+	switch o := out.(type) {
+	case iface:
+		if o.t == nil {
+			return nil
+		}
+		return []iface{o}
+	case []value:
+		var l []iface
+		for _, e := range o {
+			if it, ok := e.(iface); ok && it.t != nil {
+				l = append(l, it)
+			}
+		}
+		return l
+	}
+	return nil
+}
+
+func (fr *frame) errorsIs(err, target iface) bool {
+	if err.t == nil || target.t == nil {
+		return err.t == nil && target.t == nil
+	}
+	comparable := types.Comparable(target.t)
+	var rec func(e iface) bool
+	rec = func(e iface) bool {
+		if comparable && sameType(e.t, target.t) {
+			eq := fr.equals(e.t, e.v, target.v)
+			if b, ok := eq.(bool); ok && b {
+				return true
+			} else if s, ok := eq.(*sym); ok && fr.i.ex.branch(s.t) {
+				return true
+			}
+		}
+		if f := fr.i.prog.LookupMethod(e.t, nil, "Is"); f != nil && f.Signature.Params().Len() == 1 && f.Signature.Results().Len() == 1 {
+			if b, ok := fr.i.call(fr, token.NoPos, f, []value{e.v, target}).(bool); ok && b {
+				return true
+			}
+		}
+		for _, u := range fr.errUnwrap(e) {
+			if rec(u) {
+				return true
+			}
+		}
+		return false
+	}
+	return rec(err)
+}
+
+func (fr *frame) errorsAs(err iface, target iface) bool {
+	if err.t == nil {
+		return false
+	}
+	if target.t == nil {
+		panic(targetPanic{v: "errors: target cannot be nil"})
+	}
+	pt, ok := target.t.Underlying().(*types.Pointer)
+	if !ok {
+		panic(targetPanic{v: "errors: target must be a non-nil pointer"})
+	}
+	T := pt.Elem()
+	cell := target.v.(*value)
+	var rec func(e iface) bool
+	rec = func(e iface) bool {
+		if it, ok := T.Underlying().(*types.Interface); ok {
+			if types.Implements(e.t, it) {
+				fr.i.setCell(cell, e)
+				return true
+			}
+		} else if types.Identical(e.t, T) {
+			fr.i.store(T, cell, e.v)
+			return true
+		}
+		if f := fr.i.prog.LookupMethod(e.t, nil, "As"); f != nil && f.Signature.Params().Len() == 1 && f.Signature.Results().Len() == 1 {
+			if b, ok := fr.i.call(fr, token.NoPos, f, []value{e.v, target}).(bool); ok && b {
+				return true
+			}
+		}
+		for _, u := range fr.errUnwrap(e) {
+			if rec(u) {
+				return true
+			}
+		}
+		return false
+	}
+	return rec(err)
+}
+
+func init() {
+	reg("errors.Is", func(fr *frame, args []value) value { return fr.errorsIs(args[0].(iface), args[1].(iface)) })
+	reg("errors.As", func(fr *frame, args []value) value { return fr.errorsAs(args[0].(iface), args[1].(iface)) })
+	skipInit["errors"] = true
+	skipInit["internal/abi"] = true
+}
